@@ -5,7 +5,7 @@
 import Kskm.KsrPolicy
 import KskmProofs.Lemmas.Res
 set_option linter.unusedSimpArgs false
-namespace Kskm
+namespace Kskm.C07L
 
 /-! ### duplicate key identifiers, key lookup -/
 
@@ -262,4 +262,4 @@ theorem forEach_violation {α} (f : α → Res Unit) (r : Rule) : ∀ (l : List 
       · exact ⟨x, hx, hne⟩
     · rw [h]; rfl
 
-end Kskm
+end Kskm.C07L
